@@ -187,6 +187,26 @@ func init() {
 				h.End()
 			},
 		})
+		// Stop on a worker that was only Paused (not PauseAndWait): it must still wait for what is in transit or in flight
+		Register(&Scenario{
+			Name:  name("pause-stop/%s", kp),
+			Props: []string{"C09", "C06", "C18", "C14"},
+			Mode:  "NB", Quick: 2, Thorough: 3, Shards: 8,
+			Body: func(h *H) {
+				h.HangProp = "C06"
+				w := h.NewWorker(kp.W, 2)
+				q := w.Bind(kp.Q, nil)
+				q.Add(0, AddOpt{})
+				q.Add(1, AddOpt{Prio: 1})
+				go func() { w.Pause(); w.Stop() }()
+				h.Quiesce(true)
+				h.checkStoppedLeak(w)
+				q.Add(2, AddOpt{Prio: 2})
+				h.Quiesce(true)
+				w.Restart()
+				h.End()
+			},
+		})
 		Register(&Scenario{
 			Name:  name("waitandstop/%s", kp),
 			Props: []string{"C06", "C09", "C18"},
